@@ -97,6 +97,12 @@ class Ev(T.Evaluator):
 
     def ev(self, n, env):
         k = n.get("k")
+        if k == "path" and n["res"].get("r") == "def" and n["res"].get("dk") in ("Fn", "AssocFn"):
+            # a function item used as a value (`x.map(helper)`): the same as the closure `|a, ..| helper(a, ..)`; when the helper is one
+            # of the functions the caller allows to be inlined its body is what gets applied
+            fb = self.inline.get(n["res"].get("inst_key")) or self.inline.get(n["res"].get("key"))
+            if fb is not None and isinstance(fb.get("body"), dict):
+                return ("closure", {"k": "closure", "params": fb["params"], "body": fb["body"], "sp": fb.get("sp")}, {})
         if k == "array":
             return ("t", [self.ev(x, env) for x in n["es"]])
         if k == "index":
